@@ -7,6 +7,7 @@ import (
 	"go/types"
 	"strings"
 
+	"golang.org/x/tools/go/packages"
 	"golang.org/x/tools/go/ssa"
 )
 
@@ -253,8 +254,8 @@ func (e *Env) importedPkg(name string) *types.Package {
 	}
 	// prefer the file's import names
 	if fr.info != nil {
-		for _, p := range e.x.L.Pkgs {
-			if p.Types != fr.pkg {
+		for _, p := range []*packages.Package{e.x.L.All[fr.pkg]} {
+			if p == nil {
 				continue
 			}
 			for _, f := range p.Syntax {
@@ -666,6 +667,60 @@ func (e *Env) call(ex ECall) (Value, error) {
 			q := fmt.Sprintf("ci!%d", e.x.smt.n)
 			el := e.x.elemLoad(e.st, s, q)
 			return boolV(fmt.Sprintf("(exists ((%s Int)) (and (<= 0 %s) (< %s %s) %s))", q, q, q, s.Len, eqLoose(el, val))), nil
+		case "as":
+			// as(x, pkg.Iface): view an interface value at another interface type
+			v, err := e.eval(ex.Args[0])
+			if err != nil {
+				return nil, err
+			}
+			t, err := e.typeExpr(ex.Args[1])
+			if err != nil {
+				return nil, err
+			}
+			switch vv := v.(type) {
+			case IfaceV:
+				if _, ok := t.Underlying().(*types.Interface); ok {
+					vv.Typ = t
+					return vv, nil
+				}
+				return e.x.unbox(vv.Data, t), nil
+			case PtrV:
+				if pt, ok := t.Underlying().(*types.Pointer); ok {
+					vv.Elem = pt.Elem()
+					return vv, nil
+				}
+			}
+			return nil, fmt.Errorf("as: cannot view %T as %s", v, typeName(t))
+		case "call":
+			// call("callee key", args...): apply a pure/mf dependency contract by its key
+			ks, ok := ex.Args[0].(EStr)
+			if !ok {
+				return nil, fmt.Errorf("call needs a string key")
+			}
+			spec := e.x.DB.lookup(ks.V)
+			if spec == nil {
+				return nil, fmt.Errorf("no contract for %s", ks.V)
+			}
+			var args []Value
+			for _, a := range ex.Args[1:] {
+				v, err := e.eval(a)
+				if err != nil {
+					return nil, err
+				}
+				args = append(args, v)
+			}
+			return e.specCall(spec, args, nil)
+		case "preexisting":
+			// preexisting(x): the object was not allocated by this activation
+			v, err := e.eval(ex.Args[0])
+			if err != nil {
+				return nil, err
+			}
+			r, ok := objRef(v)
+			if !ok {
+				return nil, fmt.Errorf("preexisting of non-object")
+			}
+			return boolV(preexisting(r)), nil
 		case "ref":
 			v, err := e.eval(ex.Args[0])
 			if err != nil {
@@ -786,71 +841,7 @@ func (e *Env) pureCall(fn *types.Func, keys []string, args []Value) (Value, erro
 	}
 	spec := x.DB.lookup(keys...)
 	if spec != nil {
-		switch spec.Kind {
-		case "mf":
-			ref, ok := objRef(args[0])
-			if !ok {
-				return nil, fmt.Errorf("%s: receiver is not an object", keys[0])
-			}
-			var idx []Term
-			if len(spec.MFArgs) > 0 {
-				env := x.newEnv(e.fr, e.st)
-				env.callee = true
-				env.inQuant = e.inQuant
-				env.vars["recv"] = args[0]
-				for i, a := range args[1:] {
-					env.vars[fmt.Sprintf("a%d", i)] = a
-				}
-				for _, me := range spec.MFArgs {
-					v, err := env.eval(me)
-					if err != nil {
-						return nil, err
-					}
-					idx = append(idx, flatten(v)[0])
-				}
-			}
-			return x.mfRead(e.st, spec.MF, ref, idx, rt), nil
-		case "pure":
-			var argTerms []Term
-			var argSorts []string
-			for _, a := range args {
-				if pv, ok := a.(PtrV); ok {
-					argTerms = append(argTerms, pv.Ref)
-					argSorts = append(argSorts, SRef)
-					continue
-				}
-				ls := flatten(a)
-				sh := leafShapeAny(valueType(a))
-				for i := range ls {
-					argTerms = append(argTerms, ls[i])
-					argSorts = append(argSorts, sh[i].sort)
-				}
-			}
-			sh := leafShapeAny(rt)
-			ts := make([]Term, len(sh))
-			for i, l := range sh {
-				f := x.smt.fun("pure."+spec.Key+l.suffix, argSorts, l.sort)
-				ts[i] = App(f, argTerms...)
-			}
-			v, _ := unflatten(rt, ts)
-			// the assumed ensures of a pure function hold for this application too
-			if len(spec.Ensures) > 0 && e.inQuant == 0 {
-				env := x.newEnv(e.fr, e.st)
-				env.callee = true
-				env.vars["recv"] = args[0]
-				for i, a := range args {
-					env.vars[fmt.Sprintf("a%d", i)] = a
-				}
-				bindResults(env, v)
-				for _, en := range spec.Ensures {
-					if t, err := env.evalBool(en.E); err == nil {
-						x.smt.assume(t)
-					}
-				}
-			}
-			return v, nil
-		}
-		return nil, fmt.Errorf("%s is not pure (kind %q); it cannot be used in a specification", keys[0], spec.Kind)
+		return e.specCall(spec, args, rt)
 	}
 	// accessor convention
 	name := fn.Name()
@@ -860,6 +851,90 @@ func (e *Env) pureCall(fn *types.Func, keys []string, args []Value) (Value, erro
 		}
 	}
 	return nil, fmt.Errorf("%s has no pure contract; it cannot be used in a specification", keys[0])
+}
+
+// specCall applies a pure or model-field contract inside a specification. rt may be nil for
+// contracts that declare their result sort with "returns".
+func (e *Env) specCall(spec *FuncSpec, args []Value, rt types.Type) (Value, error) {
+	x := e.x
+	if rt == nil {
+		switch spec.Returns {
+		case "bool":
+			rt = types.Typ[types.Bool]
+		case "int":
+			rt = types.Typ[types.Int]
+		case "string":
+			rt = types.Typ[types.String]
+		default:
+			return nil, fmt.Errorf("contract %s needs a 'returns bool|int|string' line to be used with call()", spec.Key)
+		}
+	}
+	switch spec.Kind {
+	case "mf":
+		ref, ok := objRef(args[0])
+		if !ok {
+			return nil, fmt.Errorf("%s: receiver is not an object", spec.Key)
+		}
+		var idx []mfIdx
+		if len(spec.MFArgs) > 0 {
+			env := x.newEnv(e.fr, e.st)
+			env.callee = true
+			env.inQuant = e.inQuant
+			env.vars["recv"] = args[0]
+			for i, a := range args[1:] {
+				env.vars[fmt.Sprintf("a%d", i)] = a
+			}
+			for _, me := range spec.MFArgs {
+				v, err := env.eval(me)
+				if err != nil {
+					return nil, err
+				}
+				idx = append(idx, mfIndexOf(v))
+			}
+		}
+		return x.mfRead(e.st, spec.MF, ref, idx, rt), nil
+	case "pure":
+		var argTerms []Term
+		var argSorts []string
+		for _, a := range args {
+			if pv, ok := a.(PtrV); ok {
+				argTerms = append(argTerms, pv.Ref)
+				argSorts = append(argSorts, SRef)
+				continue
+			}
+			ls := flatten(a)
+			sh := leafShapeAny(valueType(a))
+			for i := range ls {
+				argTerms = append(argTerms, ls[i])
+				argSorts = append(argSorts, sh[i].sort)
+			}
+		}
+		sh := leafShapeAny(rt)
+		ts := make([]Term, len(sh))
+		for i, l := range sh {
+			f := x.smt.fun("pure."+spec.Key+l.suffix, argSorts, l.sort)
+			ts[i] = App(f, argTerms...)
+		}
+		v, _ := unflatten(rt, ts)
+		if len(spec.Ensures) > 0 && e.inQuant == 0 {
+			env := x.newEnv(e.fr, e.st)
+			env.callee = true
+			if len(args) > 0 {
+				env.vars["recv"] = args[0]
+			}
+			for i, a := range args {
+				env.vars[fmt.Sprintf("a%d", i)] = a
+			}
+			bindResults(env, v)
+			for _, en := range spec.Ensures {
+				if t, err := env.evalBool(en.E); err == nil {
+					x.smt.assume(t)
+				}
+			}
+		}
+		return v, nil
+	}
+	return nil, fmt.Errorf("%s is not pure (kind %q); it cannot be used in a specification", spec.Key, spec.Kind)
 }
 
 // evalOld evaluates in the entry state, where only parameters exist.
